@@ -147,6 +147,8 @@ def check_writer(prog):
     problems = []
     if len(esc) < 4:
         problems.append("only %d calls of escape_string_json_buf (3 string-value paths + 1 key path expected)" % len(esc))
+    # exp-bigint prints a big integer as a JSON string with `{:?}` of its decimal digits: Debug of [-0-9]* is the quoted text itself
+    dbg = [(b, t) for b, t in dbg if not ("BigInt" in show(strip(f.desc_op(t["args"][0]))) and "to_string" in show(strip(f.desc_op(t["args"][0]))))]
     if dbg:
         problems.append("text is formatted with {:?} (Rust Debug escaping is not JSON escaping)")
     n_str_disp = sum(1 for b, t in disp if (t.get("argtys") or ["?"])[0].lstrip("&") == "str")
